@@ -58,6 +58,20 @@ def judge_candidate(b, od, idx, ref_nfs):
     return (first, 'candidate %s decodes as "%s"' % (b.hex(), od[1]))
 
 
+def imm_same(v, d, opw):
+    """the number v written in the line and the decoded immediate d denote the same operand: equal modulo the operand
+    width, or equal modulo an 8/16-bit field in which v is representable (signed or unsigned); v may be written in the
+    32-bit unsigned convention"""
+    for c in [v] + ([v - (1 << 32)] if (1 << 31) <= v < (1 << 32) else []):
+        if (c - d) % (1 << opw) == 0 and -(1 << (opw - 1)) <= c < (1 << opw):
+            return True
+        if -128 <= c <= 255 and (c - d) % 256 == 0:
+            return True
+        if -32768 <= c <= 65535 and (c - d) % 65536 == 0:
+            return True
+    return False
+
+
 def process(part, ia32, items, syntax_att=True):
     """items: list of (spec or None, line, kinds)"""
     asm, asm_att = ia32.x86mnemo.asm, ia32.x86mnemo.asm_att
@@ -105,6 +119,19 @@ def process(part, ia32, items, syntax_att=True):
         if has_sym:
             refs = refs[:1]          # GNU as reads a bare symbol as a memory reference; the spec (OFFSET) is the denotation
         r = judge_candidate(b, od, j, refs)
+        if r is None and spec is not None and len(refs) > 1 and any(o[0] == 'imm' for o in spec[1]):
+            # the VALUE of an immediate is what the line says: GNU as silently shortening a number that does not fit
+            # (ret 65536 -> c2 00 00, with a warning) is not a second denotation
+            try:
+                nfc = R.parse_intel(od[1], addr=j * R.SLOT, length=od[0], source='od')[0]
+                sp = refs[0]
+                if len(nfc.ops) == len(sp.ops):
+                    opw = R.opsize_of(nfc) or R.opsize_of(sp) or 32
+                    for k_, (x, y) in enumerate(zip(sp.ops, nfc.ops)):
+                        if x[0] == 'imm' and y[0] == 'imm' and not imm_same(x[1], y[1], opw if opw in (8, 16, 32) else 32):
+                            r = ('op%d.imm-truncated' % k_, 'candidate %s decodes as "%s": the number %d of the line does not fit the field and was cut' % (b.hex(), od[1], x[1]))
+            except R.Unparsable:
+                pass
         if r is not None and has_sym and (r[0].endswith('.rel') or 'kind(mem/imm)' in r[0]):
             r = None                 # branch to a symbol: the displacement is a relocation
         mn = refs[0].mnemo
